@@ -1320,8 +1320,7 @@ Proof.
   rewrite !observe_spec. apply bytes_eqb_refl.
 Qed.
 
-Lemma spec_model i : wf i = true -> spec i (Model.model i) = true.
+Lemma spec_model i : spec i (Model.model i) = true.
 Proof.
-  unfold Model.model, wf, spec. rewrite machine_ok_true.
-  destruct (w_kind i); intros H; try exact H; cbn [sx_eqb]; rewrite bytes_eqb_refl; reflexivity.
+  unfold Model.model, spec. rewrite machine_ok_true. cbn [sx_eqb]. rewrite bytes_eqb_refl. reflexivity.
 Qed.
